@@ -62,9 +62,9 @@ type Exec struct {
 	h       *Harness
 	fnInfos map[*ssa.Function]*fnInfo
 
-	globals  map[*ssa.Global]*Value
-	initDone map[*ssa.Package]bool
-	initMode int
+	globals   map[*ssa.Global]*Value
+	initDone  map[*ssa.Package]bool
+	initMode  int
 	initStack []*ssa.Package
 
 	pc      []*T
@@ -96,16 +96,16 @@ type Exec struct {
 	observed []Observation
 	inputs   []InputRec
 
-	nextOpaque int
-	nowCount   int
-	lastNow    *T
-	approx     []string
-	timerOf    map[*Value]*Timer
-	vecs       map[*Value]*vecState
-	guard      *T
+	nextOpaque  int
+	nowCount    int
+	lastNow     *T
+	approx      []string
+	timerOf     map[*Value]*Timer
+	vecs        map[*Value]*vecState
+	guard       *T
 	speculating bool
-	noMerge    bool
-	asserts    map[string]int
+	noMerge     bool
+	asserts     map[string]int
 
 	res *PathResult
 }
